@@ -1,6 +1,7 @@
 import Operon.Model.Proto
 import Operon.Model.Mito
 import Operon.Model.MitoWork
+import Operon.Model.MitoBox
 /-!
   Line-protocol driver shared by C01 and C02 (`Drv/C01.lean`, `Drv/C02.lean` only call `Mito.main`).
 
@@ -291,6 +292,8 @@ structure DSt where
   toolMeta : List (String × (Nat × Bool)) := []
   ros : Float := 0.0
   maxRos : Float := 1.0
+  /-- E1 facts about the result containers (three more tokens of the `cfg` line) -/
+  box : Box := ⟨true, true, true⟩
   /-- C01 only: `met` / `dg` observations carry the number of walker invocations (`v=…`, see `Model/MitoWork.lean`) -/
   showWork : Bool := false
 
@@ -303,6 +306,8 @@ def parsePairs {α} (f : String → Option α) (s : String) : List (α × Prim) 
 def showOutcomeHead : Outcome → String
   | .raised => "raised none"
   | .result true (some v) _ p => s!"ok:{showVal v} {(p.map pathwayName).getD "none"}"
+  -- a success whose delivered value the model cannot vouch for (a container that does not keep it)
+  | .result true none _ p => s!"ok:? {(p.map pathwayName).getD "none"}"
   | .result _ _ _ p => s!"fail {(p.map pathwayName).getD "none"}"
 
 def rosObs (r : Float) : String := toString (r * 10.0).round.toUInt64
@@ -358,9 +363,10 @@ def step (st : DSt) (toks : List String) : DSt × String :=
                      (splitComma bo).filterMap boolOfName, (splitComma n).map strOfHex⟩ }, "ok ## retable")
   | "cfg" :: seed :: silent :: rn :: rd :: tz :: pit :: dit :: maxLen :: allowed :: rest =>
     let al := if allowed = "none" then none else some (splitComma allowed)
-    let sg := match rest with | [x] => boolOf x | _ => true
+    let sg := match rest with | x :: _ => boolOf x | _ => true
+    let box : Box := match rest with | [_, a, b, c] => ⟨boolOf a, boolOf b, boolOf c⟩ | _ => ⟨true, true, true⟩
     ({ st with seed := natD seed, ros := 0.0, maxRos := Float.ofNat (natD rn) / Float.ofNat (natD rd 1),
-               toolsLower := [], toolMeta := [],
+               toolsLower := [], toolMeta := [], box := box,
                cfg := ⟨natD maxLen, boolOf silent, boolOf tz, [], al, boolOf pit, boolOf dit, sg⟩ }, "ok")
   | ["tool", hn, hl, caps] => (regTool st hn hl caps "s0", "ok")
   | ["tool", hn, hl, caps, beh] => (regTool st hn hl caps beh, "ok")
@@ -397,7 +403,8 @@ def step (st : DSt) (toks : List String) : DSt × String :=
       let inp : Inp := ⟨natD len, parsed, betaV, boolOf pr⟩
       let (d, dtag) := detect (st.toolsLower.map (·.2)) (decodeCps raw) (decodeCps low)
       let latched := st.ros >= st.maxRos
-      let (tr, out) := metabolize st.T (envOf st) st.cfg latched d inp (pathwayOfName forced)
+      -- what the caller sees: the engine's outcome through the result containers
+      let (tr, out) := metabolizeD st.T (envOf st) st.cfg st.box latched d inp (pathwayOfName forced)
       let ros' := match out with
         | .result _ _ true _ => st.ros + 0.1
         | _ => st.ros
